@@ -9,7 +9,7 @@ import z3
 
 from .values import (SymVal, CharStr, PyObj, PyList, SymSeq, PyDict, SymMap, PySet, SymSet,
                      ClassObj, BuiltinClass, EnumMember, FuncObj, BoundMethod, StaticMethod,
-                     PropertyObj, ModuleObj, Builtin, ExcObj, Opaque, _MISSING)
+                     PropertyObj, ModuleObj, Builtin, ExcObj, Opaque, Struct, _MISSING)
 from . import ops
 from .ops import to_term, mk, kind_of, is_num
 
@@ -165,6 +165,8 @@ def install(I):
         for x in a:
             if not first and sep != '':
                 out.append(sep)
+            if isinstance(x, Struct) and x.tag == 'str.of':
+                x = x.fields[0]     # the text of a value: recorded as the value
             out.append(x)           # stands for str(x)
             first = False
         if end != '':
@@ -533,7 +535,64 @@ def call_builtin_class(I, cls, a, k):
 
 
 def str_of(I, x):
+    """str(x): the text of a number / truth value is kept as a structure over the value (so that what is printed can still be
+    compared with it), a string built by an uninterpreted str function is a string already; anything else is some string."""
+    from .values import Struct
+    if isinstance(x, Struct) and x.tag.startswith('str.'):
+        return x
+    if isinstance(x, SymVal) and x.k in ('int', 'real', 'bool'):
+        return Struct('str.of', (x,))
     return I.opaque_str('str')
+
+
+_NUM_TEXT = set('0123456789.-+einfa')        # characters the text of an int / float can contain
+
+
+def _struct_bool_method(I, obj, name, a):
+    """a truth-valued str method on a structured string: decided where the structure decides it, else one (fixed) unknown
+    truth value per (string, method, arguments)"""
+    if obj.tag == 'str.of' and name in ('endswith', 'startswith') and len(a) == 1 and isinstance(a[0], str) and a[0]:
+        v = obj.fields[0]
+        alphabet = set('TrueFals') if v.k == 'bool' else _NUM_TEXT
+        if any(ch not in alphabet for ch in a[0]):
+            return False
+    if obj.tag == 'str.format' and isinstance(obj.fields[0], str) and name == 'endswith' and len(a) == 1 and isinstance(a[0], str):
+        # the literal text after the last replacement field is the end of the result whatever the fields produce
+        import string as _string
+        try:
+            parts = list(_string.Formatter().parse(obj.fields[0]))
+        except ValueError:
+            parts = None
+        if parts:
+            if parts[-1][1] is None:                   # ends in literal text
+                tail = parts[-1][0]
+                if len(tail) >= len(a[0]):
+                    return tail.endswith(a[0])
+                if not a[0].endswith(tail):
+                    return False
+            elif a[0]:
+                # ends in a replacement field: the text of a number (padded at most with blanks, zeros or a % sign) ends in
+                # one of those characters
+                fname, fspec, conv = parts[-1][1], parts[-1][2] or '', parts[-1][3]
+                base = fname.split('.')[0].split('[')[0]
+                arg = None
+                if base == fname:
+                    if base == '':
+                        n_auto = sum(1 for p_ in parts if p_[1] == '')
+                        arg = obj.fields[1][n_auto - 1] if n_auto - 1 < len(obj.fields[1]) else None
+                    elif base.isdecimal():
+                        arg = obj.fields[1][int(base)] if int(base) < len(obj.fields[1]) else None
+                    else:
+                        arg = dict(obj.fields[2]).get(base)
+                numeric = (isinstance(arg, SymVal) and arg.k in ('int', 'real')) or (isinstance(arg, (int, float)) and not isinstance(arg, bool))
+                if numeric and conv is None and all(ch in '<>^=+- #0123456789.,_dfFeEgGxXobn%' for ch in fspec) \
+                        and a[0][-1] not in _NUM_TEXT | set(' 0%abcdefABCDEFxXob'):
+                    return False
+    key = ('struct-bool', repr(obj), name, repr(tuple(a)))
+    memo = I.ghost.setdefault('struct_bool_memo', {})
+    if key not in memo:
+        memo[key] = I.fresh('bool', name)
+    return memo[key]
 
 
 def charstr_to_int(I, s):
@@ -809,6 +868,8 @@ def builtin_attr(I, obj, name):
         def smeth(*a, **k):
             if name == 'format':
                 _format_may_raise(I)
+            if name in ('endswith', 'startswith', 'isdecimal', 'isdigit', 'isalpha', 'isalnum', 'isspace', 'isupper', 'islower', 'isidentifier', 'isnumeric'):
+                return _struct_bool_method(I, obj, name, a)
             return Struct('str.' + name, (obj, tuple(a), tuple(sorted(k.items(), key=lambda kv: kv[0]))))
         return meth(smeth)
     if isinstance(obj, SymNameOf) and name == 'lower':
@@ -832,6 +893,13 @@ def builtin_attr(I, obj, name):
                 return meth(lambda *a, **k: I.opaque_str(name))
             if name in ('isdecimal', 'isdigit'):
                 return meth(lambda: I.fresh('bool', name))
+            if obj.k == 'str' and name in ('endswith', 'startswith') :
+                def ends(x, _n=name):
+                    if not (isinstance(x, str) or (isinstance(x, SymVal) and x.k == 'str')):
+                        raise M.Unsupported('str.%s of a non-string argument' % _n)
+                    xt = to_term(x, 'str')
+                    return mk(z3.SuffixOf(xt, obj.t) if _n == 'endswith' else z3.PrefixOf(xt, obj.t), 'bool')
+                return meth(ends)
             if name == 'find':
                 return meth(lambda *a: I.fresh('int', 'find'))
         if obj.k == 'real' and name == 'is_integer':
@@ -1047,7 +1115,9 @@ def install_modules(I):
     module('re', compile=Builtin('re.compile', lambda I_, a, k: I_.native_call(re.compile, a, k)),
            error=BuiltinClass('Exception'))
 
-    module('string', Formatter=Builtin('string.Formatter', lambda I_, a, k: Opaque('Formatter', {
+    import string as _str_mod
+    module('string', **{n: getattr(_str_mod, n) for n in ('digits', 'ascii_letters', 'ascii_lowercase', 'ascii_uppercase', 'hexdigits', 'octdigits', 'punctuation', 'whitespace', 'printable')},
+           Formatter=Builtin('string.Formatter', lambda I_, a, k: Opaque('Formatter', {
         'parse': lambda I2, o, a2, k2: formatter_parse(I2, a2[0])})))
 
     for stub in ('configparser', 'logging.handlers', 'logging.config', 'pathlib', 'signal', 'traceback', 'getpass', 'typing', 'abc', 'select', 'shutil'):
